@@ -256,7 +256,11 @@ def run(ctx):
     # R18.4: the holder and the selected alternative are members like any other: their storage is interpreted according to
     # ATF_POINTER (rule R13.3 evaluated over the open type code)
     r4 = c13.r13_3(ctx.prog("S"), load_tables("c13"), rid="R18.4", only=lambda f: f.name.startswith("OPEN_TYPE_"), floor=8)
-    return run_config(ctx.prog("S"), "default") + [r18_2(ctx.prog("K")), r18_3(ctx.prog("S")), r4]
+    # R18.5: the row number answered by the generated selector is an index into the alternatives table only behind a
+    # comparison with that table's count (rule R04.2 evaluated over the open type code)
+    from . import c04
+    r5 = c04.r04_2(ctx.prog("S"), "default", rid="R18.5", only=lambda f: f.name.startswith("OPEN_TYPE_"), floor=4)
+    return run_config(ctx.prog("S"), "default") + [r18_2(ctx.prog("K")), r18_3(ctx.prog("S")), r4, r5]
 
 
 def thorough(ctx):
